@@ -35,6 +35,13 @@ SwapLists == {V1, V2, V3, Isyn, Ityp, Itgt}
 Hist(n) == UNION {{<<V1>> \o h : h \in [1..k -> SwapLists]} : k \in 0..n}
 SwapHist2 == Hist(2)
 SwapHist3 == Hist(3)
+(* for the replayed histories also lists that are prefixes / extensions of one another and the empty list:      *)
+(* "nothing changed" shortcuts and element-wise comparisons must not mistake them for each other               *)
+V4 == <<Rule("l1", "A")>>                     \* prefix of V1
+V5 == <<Rule("none", "A")>>                   \* prefix of Ityp and Itgt
+V0 == <<>>
+GenLists == SwapLists \cup {V4, V5, V0}
+GenHist3 == UNION {{<<V1>> \o h : h \in [1..k -> GenLists]} : k \in 0..3}
 ProbeReqs == << [listener |-> "l1", source |-> Src("10.0.0.1:1000", "10.0.0.1", "ipv4", TRUE), target |-> Tgt("domain", "ex.com", 80), feature |-> "TcpForward"],
                 [listener |-> "l2", source |-> Src("10.0.0.1:1000", "10.0.0.1", "ipv4", TRUE), target |-> Tgt("domain", "ex.com", 80), feature |-> "TcpForward"],
                 [listener |-> "l2", source |-> Src("[::1]:3", "::1", "ipv6", FALSE), target |-> Tgt("ipv4", "10.2.3.4", 443), feature |-> "TcpForward"],
